@@ -18,4 +18,16 @@ PROPS = {
     ],
     not_decided=[],
   ),
+  'C19': dict(
+    modules=['specs.linen_meta'],
+    bounded=[],
+    trusted_base=COMMON_TB,
+    assumptions=[
+      'axis names are an uninterpreted sort with None as a distinguished value',
+      'struct.dataclass replace(): new instance, named fields changed, others equal (assumed summary)',
+      'jax.sharding.PartitionSpec(*names) is an uninterpreted constructor applied to the names',
+      'add_axis is specified for index >= 0 (negative stacking axes are not claimed)',
+    ],
+    not_decided=['"Boxed variables compute like their raw arrays" (JAX numerics)'],
+  ),
 }
